@@ -276,6 +276,32 @@ fn date_on_year(
     }
 }
 
+/// If a range starts with an explicit year, the end of the range that doesn't specify a year
+/// refers to the first occurence following the start (eg. "2021 Mar 28-Apr 16" ends in 2021
+/// and "2021 Dec 24-Jan 06" ends in 2022).
+fn end_with_inherited_year(start: ds::Date, end: ds::Date) -> ds::Date {
+    let start_year = match start {
+        ds::Date::Fixed { year: Some(year), .. } | ds::Date::Easter { year: Some(year) } => year,
+        _ => return end,
+    };
+
+    match (start, end) {
+        (
+            ds::Date::Fixed { month: start_month, day: start_day, .. },
+            ds::Date::Fixed { year: None, month, day },
+        ) => {
+            let wraps_to_next_year = (month, day) < (start_month, start_day);
+            let year = start_year + u16::from(wraps_to_next_year);
+            ds::Date::Fixed { year: Some(year), month, day }
+        }
+        (_, ds::Date::Fixed { year: None, month, day }) => {
+            ds::Date::Fixed { year: Some(start_year), month, day }
+        }
+        (_, ds::Date::Easter { year: None }) => ds::Date::Easter { year: Some(start_year) },
+        _ => end,
+    }
+}
+
 /// Project date on a given year, only if this exact day exists for that year (for example
 /// "Feb 29" only exists on leap years and "Apr 31" never does).
 fn exact_date_on_year(date: ds::Date, for_year: i32) -> Option<NaiveDate> {
@@ -318,13 +344,15 @@ impl DateFilter for ds::MonthdayRange {
                     );
                 }
 
+                let end = end_with_inherited_year(*start, *end);
+
                 is_open_from_bounds(
                     date,
                     (year - 1..=year + 1)
                         .filter_map(|y| date_on_year(*start, y, valid_ymd_after))
                         .map(|d| start_offset.apply(d)),
                     (year - 1..=year + 1)
-                        .filter_map(|y| date_on_year(*end, y, valid_ymd_before))
+                        .filter_map(|y| date_on_year(end, y, valid_ymd_before))
                         .map(|d| end_offset.apply(d)),
                 )
             }
@@ -426,13 +454,15 @@ impl DateFilter for ds::MonthdayRange {
                     ));
                 }
 
+                let end = end_with_inherited_year(*start, *end);
+
                 Some(next_change_from_bounds(
                     date,
                     (year - 1..=year + 10)
                         .filter_map(|y| date_on_year(*start, y, valid_ymd_after))
                         .map(|d| start_offset.apply(d)),
                     (year - 1..=year + 10)
-                        .filter_map(|y| date_on_year(*end, y, valid_ymd_before))
+                        .filter_map(|y| date_on_year(end, y, valid_ymd_before))
                         .map(|d| end_offset.apply(d)),
                 ))
             }
